@@ -232,5 +232,7 @@ def bounded_checks(tier, seed):
         raise RuntimeError("bounded C19 sweep crashed: " + r.stderr[-1500:])
     d = json.loads(r.stdout.strip().splitlines()[-1])
     return [{"check": "stub_packages", "tool": "generated (module, stubs) pairs loaded with the real loader; statement evaluated natively",
-             "bound": "432 member combinations (function/class/attribute/import x same kind/kind mismatch/overloads/alias/stub-only) x 4 stub placements (sibling .pyi, __init__.pyi, -stubs package, sub-package with child modules) x 2 discovery orders",
+             "bound": "every combination of: runtime f (documented / undocumented / an unresolvable import / absent) x stub f (same kind / bare overloads / overloads + implementation "
+                      "signature / attribute = kind mismatch / absent) x runtime class (documented / undocumented with a documented member / absent) x stub class (same / a function / "
+                      "absent) x runtime and stub variables and imports; x 4 stub placements (sibling .pyi, __init__.pyi, -stubs package, sub-package with child modules) x 2 discovery orders",
              "cases": d["cases"], "failing": len(d["bad"]), "wall_s": round(time.time() - t0, 1), "violations": d["bad"]}]
